@@ -44,7 +44,12 @@ func (f *And) Call(s *slip.Scope, args slip.List, depth int) (result slip.Object
 	result = slip.True
 	d2 := depth + 1
 	for i := range args {
-		if result = slip.EvalArg(s, args, i, d2); result == nil {
+		result = slip.EvalArg(s, args, i, d2)
+		if i < len(args)-1 {
+			// Only the last form passes on all its values.
+			result = primaryValue(result)
+		}
+		if result == nil {
 			break
 		}
 		if _, ok := result.(slip.NonLocalExit); ok {
